@@ -30,7 +30,7 @@ RULE = ("seeded cases: imaging dataset (mask with footprint inside the frame, 4.
         "sub-size 1..2) x ordered list of 1..3 linear objects (rectangular / Delaunay mappers on distorted source grids, "
         "function lists with signed/tiny matrices, regularised or not); a case = (dataset, object list); distinct by hash of "
         "(mask, kernel, data, noise, mapping matrices); non-trivial = kernel larger than 1x1 or more than one object")
-BOUNDS = {"quick": "256 cases x 2 formalisms (+ block permutations), n<=36 unmasked pixels",
+BOUNDS = {"quick": "1024 cases x 2 formalisms (+ block permutations), n<=36 unmasked pixels",
           "thorough": "30000 cases x 2 formalisms"}
 EXHAUSTIVE = {"quick": False, "thorough": False}
 ASSUMPTIONS = ["assembled quantities compared with |got-ref| <= 1e-8*max(1,|ref|inf); reconstructions compared only when cond(F+H) <= 1e8 (1e-6*scale), otherwise counted and skipped",
@@ -43,8 +43,8 @@ RT = 1e-8
 
 
 def plan(tier, seed):
-    n = 256 if tier == "quick" else 30000
-    step = 4 if tier == "quick" else 25
+    n = 1024 if tier == "quick" else 30000
+    step = 8 if tier == "quick" else 25
     return [{"kind": "inv", "start": s, "stop": min(n, s + step), "w": step} for s in range(0, n, step)]
 
 
